@@ -174,6 +174,18 @@ def countIncorrect (P : Prims) (stanzas : List Stanza) : List Identity → Nat
     | .incorrect => 1 + countIncorrect P stanzas ids
     | _ => 0
 
+/-- whether the identity that ended the loop hands back an EMPTY file key as an empty but NON-nil slice
+    (ssh-rsa: what `rsa.DecryptOAEP` returns for an empty message) rather than as nil (ssh-ed25519: what the AEAD's
+    `Open` returns for an empty plaintext; the native types never return an empty key). `Decrypt` tells the two apart
+    with `fileKey == nil`: a nil key is "no identity matched", an empty one goes on to the MAC check. -/
+def endsNonNil (P : Prims) (stanzas : List Stanza) : List Identity → Bool
+  | [] => false
+  | id :: ids =>
+    match id.unwrap P stanzas with
+    | .incorrect => endsNonNil P stanzas ids
+    | .fatal => false
+    | .key _ => id.emptyNonNil
+
 /-- `Decrypt(src, identities...)` up to the point where the payload reader is
     created: the stream key and the payload bytes, plus how many identities were consulted -/
 def decryptInit (P : Prims) (ids : List Identity) (file : Bytes) : Except DecErr (Bytes × Bytes) × Nat :=
@@ -185,7 +197,7 @@ def decryptInit (P : Prims) (ids : List Identity) (file : Bytes) : Except DecErr
       | (.error e, c) => (.error e, c)
       | (.ok none, c) => (.error (.noMatch (countIncorrect P hdr.stanzas ids)), c)
       | (.ok (some fk), c) =>
-        if fk.isEmpty then (.error (.noMatch (countIncorrect P hdr.stanzas ids)), c)   -- a nil file key
+        if fk.isEmpty && !endsNonNil P hdr.stanzas ids then (.error (.noMatch (countIncorrect P hdr.stanzas ids)), c)   -- a nil file key
         else if headerMAC P fk hdr.stanzas ≠ hdr.mac then (.error .badMAC, c)
         else if payload.length < streamNonceSize then (.error .nonce, c)
         else (.ok (streamKey P fk (payload.take streamNonceSize), payload.drop streamNonceSize), c)
